@@ -123,6 +123,19 @@ Theorem legacy_keeps_explicit_index : forall flags si, si <> ""%string -> legacy
 Proof. exact legacy_keeps_explicit_lemma. Qed.
 Print Assumptions legacy_keeps_explicit_index.
 
+(* label pseudo frames: the frame of a key is made of ALL its string values followed by ALL its
+   numeric values, whenever the units are absent or one per value -- a key carrying values of both
+   kinds on one sample loses neither *)
+Theorem label_values_complete : forall (f : Z -> string -> string) s k,
+  let vals := or_nil (assoc_s k (s_label s)) in
+  let nums := or_nil (assoc_s k (s_numlabel s)) in
+  let units := or_nil (assoc_s k (s_numunit s)) in
+  (units = [] \/ List.length units = List.length nums) ->
+  List.length (format_label_values f s k) = (List.length vals + List.length nums)%nat /\
+  firstn (List.length vals) (format_label_values f s k) = vals.
+Proof. exact label_values_complete_lemma. Qed.
+Print Assumptions label_values_complete.
+
 (* the defaults the code has now: no limit for top/text, 80 for graph-style commands; the web /top
    page asks for 500; an interactive command's own count wins over the session's for that command *)
 Example nodecount_defaults :
